@@ -266,7 +266,8 @@ entries listing address `a` are tagged by the matcher of `P`, bit `j` of what th
 theorem table_bit_at_position (P : DProgram) (hc : GroupsCover P)
     (hcalls : ∀ a ∈ addCalls P, callOk MaxMatchSetLen a = true)
     (hfit : (compileProgram P.rules P.fb).length ≤ MaxMatchSetLen)
-    (nameOf : String → Str) (rxOf : String → List Nat) (σ : C10.CState) (hI : C10.CInv σ) (a : Nat)
+    (nameOf : String → Str) (rxOf : String → List Nat) (σ : C10.CState) (hI : C10.CInv σ)
+    (hclean : σ.dirty = []) (a : Nat)
     (tagged : ∀ key e, C10.alLookup key σ.cache = some e → a ∈ C10.ansIps e.ans →
       EntryTagged P nameOf rxOf key e.bitmap)
     (j : Nat) (hj : j < (compileProgram P.rules P.fb).length) (g : Nat)
@@ -275,7 +276,7 @@ theorem table_bit_at_position (P : DProgram) (hc : GroupsCover P)
   have hmem : (j, g) ∈ regsOf 0 (compileProgram P.rules P.fb) :=
     (mem_regsOf _ 0 (j, g)).mpr ⟨j, hj, by simp, hg⟩
   have hlt : g < P.groups.length := hc _ hmem
-  rw [hI.kernel_eq_spec a, C10.specOr, C10.testBit_orAll, List.any_map]
+  rw [hI.kernel_eq_spec hclean a, C10.specOr, C10.testBit_orAll, List.any_map]
   rw [List.getD_eq_getElem?_getD, List.getElem?_map, List.getElem?_eq_getElem hlt]
   simp only [Option.map_some, Option.getD_some]
   unfold learntHolds learnt
@@ -343,7 +344,9 @@ theorem kernel_routes_by_dns_learnt_domains
         (some (firstMatchS (withLearnt P nameOf rxOf (C10.crun (C10.CState.init cfg) h).cache p)
           P.rules P.fb false)) := by
   have hI : C10.CInv (C10.crun (C10.CState.init cfg) h) := C10.CInv_run h (C10.CInv_init cfg)
-  generalize C10.crun (C10.CState.init cfg) h = σ at hI tagged ⊢
+  -- the history's batch syscalls all succeed (C10's `crun`): no cache key is dirty
+  have hclean : (C10.crun (C10.CState.init cfg) h).dirty = [] := C10.crun_dirty h rfl
+  generalize C10.crun (C10.CState.init cfg) h = σ at hI hclean tagged ⊢
   have hlen := assignShare_length hash (compileProgram P.rules P.fb) Builder.empty
   have htries := assignShare_tries_le hash (compileProgram P.rules P.fb) Builder.empty
   have hwf : (withLearnt P nameOf rxOf σ.cache p).WF := hp
@@ -352,7 +355,7 @@ theorem kernel_routes_by_dns_learnt_domains
     (domOK_of_pointwise _ _ _ 0 (by
       intro j hj g hg
       rw [Nat.zero_add, bitmapBit_wordsOfNat _ j (Nat.lt_of_lt_of_le hj progFit)]
-      exact table_bit_at_position P hc hcalls progFit nameOf rxOf σ hI p.dst tagged j hj g hg))
+      exact table_bit_at_position P hc hcalls progFit nameOf rxOf σ hI hclean p.dst tagged j hj g hg))
     (by rw [hlen]; exact progFit)
     (by
       have : (Builder.empty).tries.length = 0 := rfl
@@ -392,7 +395,7 @@ theorem cacheAll_erase {Q : String → Nat → Prop} {c : List (String × C10.En
 
 theorem cacheAll_evict {Q : String → Nat → Prop} {σ : C10.CState} (h : CacheAll Q σ.cache) (k : String) :
     CacheAll Q (σ.evict k).cache := by
-  unfold C10.CState.evict
+  unfold C10.CState.evict C10.CState.evictP
   split
   · exact h
   · split
@@ -411,8 +414,9 @@ theorem cacheAll_foldl_evict {Q : String → Nat → Prop} (f : String → Bool)
     · exact h
 
 theorem cacheAll_store {Q : String → Nat → Prop} {σ : C10.CState} (h : CacheAll Q σ.cache) (k : String)
-    (e : C10.Entry) (hq : Q k e.bitmap) : CacheAll Q (σ.store k e).cache :=
-  cacheAll_insert h k { e with id := σ.nextId } hq
+    (e : C10.Entry) (hq : Q k e.bitmap) : CacheAll Q (σ.store k e).cache := by
+  unfold C10.CState.store C10.CState.storeP
+  exact cacheAll_insert h k _ hq
 
 theorem cacheAll_queueRefresh {Q : String → Nat → Prop} {σ : C10.CState} (h : CacheAll Q σ.cache) (k : String) :
     CacheAll Q (σ.queueRefresh k).cache := by
@@ -424,11 +428,14 @@ theorem cacheAll_queueRefresh {Q : String → Nat → Prop} {σ : C10.CState} (h
 
 theorem cacheAll_applyTask {Q : String → Nat → Prop} {σ : C10.CState} (h : CacheAll Q σ.cache) (t : C10.Task) :
     CacheAll Q (σ.applyTask t).cache := by
-  unfold C10.CState.applyTask
+  unfold C10.CState.applyTask C10.CState.applyTaskP
   split
   · rename_i e he
     split
-    · exact cacheAll_insert h t.key { e with lastSync := t.now } (h t.key e he)
+    · simp only
+      split
+      · exact cacheAll_insert h t.key { e with lastSync := t.now } (h t.key e he)
+      · exact h
     · exact h
   · exact h
 
@@ -455,45 +462,45 @@ theorem cacheAll_step {Q : String → Nat → Prop} {σ : C10.CState} (hnd : C10
     (h : CacheAll Q σ.cache) (op : C10.COp) (hop : OpAll Q op) : CacheAll Q (C10.cstep σ op).cache := by
   cases op with
   | put key fqdn qtype ttl fixedTtl bitmap ans =>
-    simp only [C10.cstep]
+    simp only [C10.cstep, C10.cstepP]
     split
     · exact h
     · exact cacheAll_store h _ _ hop
   | del key => exact cacheAll_evict h key
   | fam base order =>
-    simp only [C10.cstep]
+    simp only [C10.cstep, C10.cstepP]
     split
     · exact h
     · have := cacheAll_foldl_evict (Q := Q) (fun k => decide (C10.baseKey k = base)) order h
       simp only [decide_eq_true_eq] at this
       exact this
   | look key evicted queued =>
-    simp only [C10.cstep]
+    simp only [C10.cstep, C10.cstepP]
     split
     · exact cacheAll_evict h key
     · split
       · exact cacheAll_queueRefresh h key
       · exact h
   | jan order =>
-    simp only [C10.cstep]
+    simp only [C10.cstep, C10.cstepP]
     have := cacheAll_foldl_evict (Q := Q) (fun _ => true) order h
     simp only [if_true] at this
     exact this
   | sleep ns => exact h
   | work =>
-    simp only [C10.cstep]
+    simp only [C10.cstep, C10.cstepP]
     split
     · exact h
     · rename_i t rest _
       exact cacheAll_applyTask (σ := { σ with pending := rest }) h t
   | touch key =>
-    simp only [C10.cstep]
+    simp only [C10.cstep, C10.cstepP]
     split
     · exact h
     · rename_i e he
       exact cacheAll_insert h key { e with lastAccess := σ.now } (h key e he)
   | hot key evicted queued =>
-    simp only [C10.cstep]
+    simp only [C10.cstep, C10.cstepP]
     split
     · exact h
     · rename_i e he
@@ -505,7 +512,7 @@ theorem cacheAll_step {Q : String → Nat → Prop} {σ : C10.CState} (hnd : C10
         · exact cacheAll_queueRefresh (σ := { σ with cache := _ }) h1 key
         · exact h1
   | reload assign =>
-    simp only [C10.cstep]
+    simp only [C10.cstep, C10.cstepP]
     refine cacheAll_restore σ.cache _ ?_ ?_
     · intro p hp hsome
       rw [List.mem_append] at hp
